@@ -527,8 +527,11 @@ IDENTITY_CALLS = re.compile(
     r"to_path_buf|to_os_string|to_redo_path_buf|to_string|into|from|into_os_string|into_path_buf|into_string|"
     r"as_mut|as_slice|unwrap|expect|map_err|branch|from_residual|into_owned|to_str|as_c_str|into_iter|iter|"
     r"next|copied|cloned|as_raw_fd|as_raw|try_into|try_from|new_unchecked|get_mut|get_ref|into_inner|into_future|fuse|"
-    r"from_os_str_unchecked|from_str_unchecked|from_string_unchecked|from_os_string_unchecked|unwrap_or_default)"
+    r"from_os_str_unchecked|from_str_unchecked|from_string_unchecked|from_os_string_unchecked|unwrap_or_default|unwrap_or)"
     r"|alloc::boxed::Box::(pin|new)|alloc::rc::Rc::new|core::pin::Pin::(new|new_unchecked|as_mut)|core::cell::(Cell|RefCell)::new")
+
+
+OPAQUE_CARRIERS = re.compile(r"(&mut |&)?(state::ProcessTransaction(<.*>)?|state::ProcessState|jobserver::JobServerHandle|env::Env)")
 
 
 def taint(body, src_place=None, src_call=None, seeds=(), mode="derived", through=None, barrier_call=None):
@@ -587,6 +590,10 @@ def taint(body, src_place=None, src_call=None, seeds=(), mode="derived", through
                     if any_t or is_src:
                         # out-parameters: referents of &mut arguments
                         for a, aty in zip(t["args"], t.get("arg_tys", [])):
+                            if OPAQUE_CARRIERS.fullmatch(aty):
+                                # the transaction / process state / environment handle threads through
+                                # every call; it is not a carrier of the tracked value
+                                continue
                             if aty.startswith("&mut ") or aty.startswith("core::pin::Pin<&mut"):
                                 al = op_local(a)
                                 if al is None:
